@@ -57,6 +57,22 @@ static void run_case(CaseCtx& c)
         start_kind = 0;
     int scratch_kind = rng.range(0, 2);
     bool two_level_nosmooth = rng.coin(0.2);
+    // a few hierarchies whose level 1 lies above 10 000 nodes (129 x 512 -> 65 x 256 -> ...), with thread counts that do not
+    // divide the node counts: the parallel paths of the vector kernels inside the cycles
+    const bool large = rng.coin(c.thorough() ? 0.01 : 0.03);
+    if (large) {
+        cfg.nr_exp = 5;
+        cfg.divideBy2 = 2;
+        cfg.ntheta_exp = 7;
+        cfg.aniso = 0;
+        extrap = rng.coin(0.8);
+        cfg.extrapolation = extrap ? rng.pick({1, 1, 3}) : 0;
+        cfg.maxLevels = rng.pick({-1, 3, 4});
+        cfg.threads = rng.pick({3, 5, 6, 7});
+        if (start_kind == 2)
+            start_kind = 0;
+        two_level_nosmooth = false;
+    }
     if (two_level_nosmooth) {
         cfg.maxLevels = 2;
         cfg.pre = cfg.post = 0;
@@ -64,7 +80,7 @@ static void run_case(CaseCtx& c)
     static const char* sk[] = {"random", "zero", "exact", "wide"};
     static const char* sck[] = {"zeros", "garbage", "huge"};
     cfg.describe(c.obs.params);
-    c.obs.params.i("cycle_type", type).str("start", sk[start_kind]).str("scratch", sck[scratch_kind]).b("two_level_nosmooth", two_level_nosmooth);
+    c.obs.params.i("cycle_type", type).str("start", sk[start_kind]).str("scratch", sck[scratch_kind]).b("two_level_nosmooth", two_level_nosmooth).b("large", large);
     c.announce(std::string(extrap ? "extrap" : "plain") + "/cycle" + std::to_string(type));
 
     std::unique_ptr<GMGPolar> g = cfg.make_api();
